@@ -91,6 +91,11 @@ impl LocalFunction {
                 InstrLocId::new(pos as u32)
             };
             validator.op(pos, &inst)?;
+            if ctx.controls.is_empty() {
+                // The function's closing `end` has already been seen: whatever follows inside the body is
+                // invalid (`validator.finish` would say so, but the IR builder needs an open frame).
+                anyhow::bail!("operators remaining after end of function");
+            }
             append_instruction(&mut ctx, inst, loc);
             instruction_mapping.insert(pos - code_address_offset, loc);
         }
